@@ -42,15 +42,19 @@ class Hdf(Harness):
     modules = CORR_MODULES + (misc_mod,)
     xval = False
 
-    def __init__(self, B, P, wrong=None):
-        self.B, self.P, self.wrong = B, P, wrong
-        self.name = "hdf.corrfunc.B%dP%d" % (B, P) + (".twin-" + wrong if wrong else "")
-        self.bounds = ("bins=%d patches=%d; all counts (zero / non-zero decided by the solver) and weight sums symbolic; which of "
-                       "dr/rd/rr exist (7 combinations), auto/cross and the closed side chosen by the engine") % (B, P)
+    def __init__(self, B, P, wrong=None, full_only=False):
+        self.B, self.P, self.wrong, self.full_only = B, P, wrong, full_only
+        self.name = "hdf.corrfunc.B%dP%d" % (B, P) + (".full" if full_only else "") + (".twin-" + wrong if wrong else "")
+        self.bounds = ("bins=%d patches=%d; all counts (zero / non-zero decided by the solver) and weight sums symbolic; %s, "
+                       "auto/cross chosen by the engine") % (B, P, "all of dd/dr/rd/rr present, closed=right" if full_only else
+                                                            "which of dr/rd/rr exist (7 combinations) and the closed side chosen by the engine")
         self.must_fail = wrong is not None
 
     def make_inputs(self, eng):
-        d = {"combo": eng.choose(len(COMBOS), "members"), "auto": eng.choose(2, "auto"), "closed": eng.choose(2, "closed")}
+        if self.full_only:
+            d = {"combo": len(COMBOS) - 1, "auto": eng.choose(2, "auto"), "closed": 0}
+        else:
+            d = {"combo": eng.choose(len(COMBOS), "members"), "auto": eng.choose(2, "auto"), "closed": eng.choose(2, "closed")}
         auto = bool(d["auto"])
         for t in ("dd", "dr", "rd", "rr"):
             d.update(sym_counts(t, self.B, self.P, member_auto(t, auto)))
@@ -354,7 +358,7 @@ class ConfigYaml(Harness):
 def harnesses(tier):
     hs = [Hdf(1, 2), Hdf(2, 1), ConfigYaml(), FixedWidth(), TextSpecial(), TextFiles(CorrData, 1, 1, vmax=1000), TextFiles(RedshiftData, 2, 2), MetaYaml()]
     if tier == "thorough":
-        hs += [Hdf(2, 2), Hdf(1, 3), TextFiles(HistData, 3, 2), TextFiles(CorrData, 2, 3), TextFiles(CorrData, 1, 2, vmax=1000)]
+        hs += [Hdf(2, 2), Hdf(1, 3, full_only=True), TextFiles(HistData, 3, 2), TextFiles(CorrData, 2, 3), TextFiles(CorrData, 1, 2, vmax=1000)]
     hs += [Hdf(1, 2, wrong="swap"), TextFiles(CorrData, 1, 1, wrong="tight")]
     return hs
 
